@@ -881,7 +881,8 @@ impl<P: RuntimeProvider + Send + Sync> SqliteZoneHandler<P> {
                 DNSClass::NONE => {
                     info!("deleting specific record: {rr:?}");
                     // NONE     rrset    rr       Delete an RR from an RRset
-                    if let Some(rrset) = self.in_memory.records_mut().await.get_mut(&rr_key) {
+                    let mut records = self.in_memory.records_mut().await;
+                    if let Some(rrset) = records.get_mut(&rr_key) {
                         // b/c this is an Arc, we need to clone, then remove, and replace the node.
                         let mut rrset_clone: RecordSet = RecordSet::clone(&*rrset);
                         let deleted = rrset_clone.remove(rr, serial);
@@ -889,7 +890,12 @@ impl<P: RuntimeProvider + Send + Sync> SqliteZoneHandler<P> {
                         updated = updated || deleted;
 
                         if deleted {
-                            *rrset = Arc::new(rrset_clone);
+                            if rrset_clone.is_empty() {
+                                // an RRset without RRs does not exist
+                                records.remove(&rr_key);
+                            } else {
+                                *rrset = Arc::new(rrset_clone);
+                            }
                         }
 
                         #[cfg(all(feature = "metrics", feature = "__dnssec"))]
